@@ -23,8 +23,9 @@ REPO = os.environ.get("VERIF_REPO", "/repo")
 _ready = False
 
 
-class CaseTimeout(Exception):
-    pass
+class CaseTimeout(BaseException):
+    """Raised by the SIGALRM backstop.  Derives from BaseException so that a broad `except Exception` inside the code under
+    test cannot swallow it, and the timer repeats so that a swallowed/ignored first hit is followed by another."""
 
 
 class StdinRead(EOFError):
@@ -111,7 +112,7 @@ def _alarm(signum, frame):
 def watchdog(seconds: float):
     """Backstop against pure-CPU loops.  A hit must be reported as a cap."""
     old = signal.signal(signal.SIGALRM, _alarm)
-    signal.setitimer(signal.ITIMER_REAL, seconds)
+    signal.setitimer(signal.ITIMER_REAL, seconds, 0.5)
     try:
         yield
     finally:
